@@ -317,6 +317,14 @@ class LockUnit(MethodUnit):
     def guarantee(self, seg, now, s, cur):
         return lock_guarantee(seg, now, s, cur)
 
+    def ghost_resume(self, ip, what, payload):
+        """the task is running again: its record is removed (only its owner does that)"""
+        st, s, cur = ip.st, self.self_val.t, ip.ctx.cur.t
+        if what == "future":
+            st.put("Lock", "$rec", s, z3.Store(st.get("Lock", "$rec", s), payload.t, 0))
+        elif what == "cancel_shielded_checkpoint":
+            st.put("Lock", "$fast", s, z3.Store(st.get("Lock", "$fast", s), cur, False))
+
     def resume_assumptions(self, ip, what, payload):
         """Inv holds of the arbitrary state in which this call is resumed, its own ghost record is
         still there (only the owner removes it) and is removed now: the task is running again."""
@@ -328,11 +336,9 @@ class LockUnit(MethodUnit):
         if what == "future":
             st.assume(z3.Select(rec(h, s), payload.t) == cur)
             st.assume(e1_running(h, s, cur, own_fut=payload.t))
-            st.put("Lock", "$rec", s, z3.Store(st.get("Lock", "$rec", s), payload.t, 0))
         elif what == "cancel_shielded_checkpoint":
             st.assume(z3.Select(fast(h, s), cur))
             st.assume(e1_running(h, s, cur, own_fast=True))
-            st.put("Lock", "$fast", s, z3.Store(st.get("Lock", "$fast", s), cur, False))
         else:
             st.assume(e1_running(h, s, cur))
         # rely: what the other tasks' segments (each satisfying `lock_guarantee`) can have done
